@@ -4,7 +4,7 @@ COMMON_TB = ['spec functions in /verif/specs as a rendering of the property text
 
 PROPS = {
     'C01': {
-        'modules': ['contracts.c01'],
+        'modules': ['contracts.c01', 'contracts.c01_lemmas', 'contracts.c01_dec'],
         'level': 'proof',
         'trusted_base': COMMON_TB,
         'assumptions': [],
